@@ -3,6 +3,7 @@ from ..core import operand_locals, def_sites
 from ..expr import (expr_of_operand, call_arg_exprs, evaluate, result_kind_of_ret, deep_repr, expr_of_local)
 from ..guards import edge_facts, facts_at, term_of
 from . import common as cm
+from ..inline import inline
 from .c01 import boundaries, PAIRS, get as get_anchor
 
 EXPLANATION = (
@@ -221,6 +222,7 @@ def sized(rep, prog):
             f = prog.by_key.get(it["key"])
             if f is None:
                 continue
+            f = inline(prog, f)      # a shared sequence-reading helper is analysed in each visitor
             ef = edge_facts(f, cm.view_info)
             for c in f.calls():
                 if c.path != "std::ops::IndexMut::index_mut" or len(c.args) != 2:
